@@ -278,6 +278,14 @@ Proof.
       destruct c; cbn [items_cost node_cost]; destruct al; lia.
 Qed.
 
+Lemma app_text_fp s t s' d : app_text s t = (s', d) -> optb s' = optb s + d.
+Proof. unfold app_text. destruct t; intros E; inv E; [lia|]. destruct s; cbn [optb]; lia. Qed.
+Lemma member_app_fp m t m' d : member_app m t = Ok (m', d) -> fp_opt m' = fp_opt m + d.
+Proof.
+  unfold member_app. destruct m as [[]|]; try discriminate;
+    (destruct (app_text _ t) as [s' d'] eqn:A; intros E; inv E; apply app_text_fp in A; cbn [fp_opt footprint]; lia).
+Qed.
+
 Theorem step_inv b w op w' r :
   step pcre flag_table w op = Ok (w', r) -> Inv b w -> Inv b w'.
 Proof.
@@ -463,6 +471,69 @@ Proof.
     destruct (as_cont co) as [[[[[i k] a] al] xs]|]; cbn [bind] in E; [|discriminate].
     match type of E with (if ?c then _ else _) = _ => destruct c end; [discriminate|].
     destruct (query_walk i po xs); inv E. exact I.
+  - (* TokSetChar *)
+    destruct (get w t) as [x|] eqn:G; cbn [bind] in E; [|discriminate]. apply get_ok in G.
+    match type of E with (if ?c then _ else _) = _ => destruct c end; [discriminate|].
+    destruct x; try discriminate. destruct which as [|[|[|?]]]; try discriminate;
+      (inv E; unfold Inv in *; cbn [ledger held]; erewrite sum_fp_put by eassumption; rewrite !footprint_tok; lia).
+  - (* TokSetTokens *)
+    eapply setter_inv; [|exact E|exact I]. intros po x po' old F; cbv beta in F.
+    destruct po; try discriminate.
+    destruct x as [[| | | | | | | |[] ? ? ? ?| |]|]; try discriminate; inv F; rewrite !footprint_tok; cbn [fp_opt]; lia.
+  - (* TokListRemoveAt *)
+    destruct (get w t) as [x|] eqn:G; cbn [bind] in E; [|discriminate]. apply get_ok in G.
+    destruct x as [| | | | |a0 b0 [[| | | | | | | |[] k ad al xs| |]|] ch| | | | |]; try discriminate.
+    destruct (in_range xs idx) as [n|] eqn:R.
+    + match type of E with Ok ?hb = _ => destruct hb as [w1 r1] eqn:H end. inv E.
+      eapply hand_back_inv; [exact H|]. unfold Inv in I.
+      destruct (rem_nth_fp n xs (in_range_lt xs idx n R)) as (A & B & _).
+      erewrite sum_fp_put by eassumption. rewrite !footprint_tok. cbn [fp_opt].
+      rewrite !footprint_cont_split, A, B.
+      destruct k; cbn [items_cost node_cost].
+      * destruct (rem_nth n xs) as [|y u]; cbn [length Nat.eqb]; destruct al; cbn [andb negb items_cost]; lia.
+      * lia.
+      * lia.
+    + match type of E with Ok ?hb = _ => destruct hb as [w1 r1] eqn:H end. inv E.
+      eapply hand_back_inv; [exact H|]. unfold Inv in I. cbn [fp_opt]. lia.
+  - (* TokListAppend *)
+    destruct (get w t) as [x|] eqn:G; cbn [bind] in E; [|discriminate]. apply get_ok in G.
+    destruct (Nat.eqb t h) eqn:Eth; [discriminate|]. apply Nat.eqb_neq in Eth.
+    destruct (get w h) as [y|] eqn:Gh; cbn [bind] in E; [|discriminate]. apply get_ok in Gh.
+    destruct (negb (storable y)); [discriminate|].
+    destruct x as [| | | | |a0 b0 [[| | | | | | | |[] k ad al xs| |]|] ch| | | | |]; try discriminate. inv E.
+    unfold Inv in *. cbn [ledger held].
+    rewrite (sum_fp_put t (OTok a0 b0 (Some (OCont IList k ad al xs)) ch)), (sum_fp_drop h y)
+      by (rewrite ?lookup_drop_ne by auto; assumption).
+    rewrite !footprint_tok. cbn [fp_opt]. rewrite !footprint_cont_split, fp_list_app, app_length, fp_list_cons.
+    cbn [length fp_list fp_opt]. destruct k; cbn [items_cost node_cost]; destruct al; lia.
+  - (* MemberAppend *)
+    destruct (get w h) as [x|] eqn:G; cbn [bind] in E; [|discriminate]. apply get_ok in G.
+    destruct x as [| | | |pk pv|a0 b0 l0 ch|us cs| | | |]; try discriminate.
+    + destruct sel as [|[|?]]; try discriminate;
+        (match type of E with (x <- ?M ;; _) = _ => destruct M as [[m' d]|] eqn:Em end; cbn [bind] in E; [|discriminate];
+         inv E; apply member_app_fp in Em; unfold Inv in *; cbn [ledger held]; erewrite sum_fp_put by eassumption;
+         rewrite !footprint_pair; lia).
+    + destruct sel as [|[|?]]; try discriminate;
+        (match type of E with (x <- ?M ;; _) = _ => destruct M as [[m' d]|] eqn:Em end; cbn [bind] in E; [|discriminate];
+         inv E; apply member_app_fp in Em; unfold Inv in *; cbn [ledger held]; erewrite sum_fp_put by eassumption;
+         rewrite !footprint_tok; lia).
+    + destruct (sel <? length cs)%nat eqn:L; [|discriminate]. apply Nat.ltb_lt in L.
+      destruct (member_app (nth_comp cs sel) t) as [[m' d]|] eqn:Em; cbn [bind] in E; [|discriminate].
+      inv E. apply member_app_fp in Em. unfold Inv in *. cbn [ledger held]. erewrite sum_fp_put by eassumption.
+      rewrite !footprint_url, fp_list_upd by assumption. unfold nth_comp in Em. lia.
+  - (* SetLen *)
+    destruct (get w h) as [x|] eqn:G; cbn [bind] in E; [|discriminate]. apply get_ok in G.
+    destruct (k <? 0).
+    + destruct x; try discriminate; inv E; exact I.
+    + destruct x as [| | |mb| | | | | | |]; try discriminate.
+      match type of E with (if ?c then _ else _) = _ => destruct c end; [discriminate|]. inv E.
+      unfold Inv in *. cbn [ledger held]. erewrite sum_fp_put by eassumption.
+      destruct mb; cbn [footprint optb]; lia.
+  - (* NewFromStream *)
+    destruct (stream_text c v k content pos) as [[bo|]|]; cbn [bind] in E; [| |discriminate].
+    + eapply fresh_inv; [exact E|reflexivity|exact I].
+    + match type of E with Ok ?hb = _ => destruct hb as [w1 r1] eqn:H end. inv E.
+      eapply hand_back_inv; [exact H|]. unfold Inv in I. cbn [fp_opt]. lia.
 Qed.
 
 (* ---- programs ---- *)
